@@ -48,13 +48,34 @@ Definition returns : cset := [COk; CErr].
 Inductive term := TmEOF | TmErr.
 Record rd := mkrd { r_toks : list token; r_term : term }.
 
+(* what the application did to the state a handler keeps between stanzas, in
+   the order it happened (calls of the application, and departures the muc
+   handler processed) *)
+Inductive aop :=
+| ALListen     (* ibb.Handler.Listen on the session *)
+| ALAcceptor   (* somebody accepts from the current listener from now on *)
+| ALClose      (* Listener.Close *)
+| AMJoin       (* muc Join / Channel.Join of the room occupant *)
+| AMDepart     (* an unavailable presence of the occupant was processed *)
+| AMLeave.     (* Channel.Leave called *)
+
 (* what the environment of a call looks like *)
 Record env := mkenv {
   e_tracked : list bytes;  (* history: ids of the queries being tracked *)
-  e_ready : bool;          (* the partner of a hand-over is (or becomes) ready: an iterator that is
-                              advanced, closed or whose context ends; a listener that accepts *)
+  e_ready : bool;          (* history: the iterator of the hand-over is (or becomes) ready: it is
+                              advanced, closed or its context ends *)
   e_type : bytes;          (* stanza type as the multiplexer parsed it *)
-  e_ok : bool              (* stanza.NewIQ accepted the reply's attributes (oracle: jid.Parse) *)
+  e_ok : bool;             (* an oracle's answer: stanza.NewIQ accepted the reply (jid.Parse); ibb: the
+                              request is addressed to the session's local address; muc: the presence
+                              comes from the occupant that joined *)
+  e_full : bool;           (* the session's local address is a full JID *)
+  e_hist : list aop        (* application-side history *)
+}.
+
+(* facts read from the sources by the translator (gen/C09Sites.v) *)
+Record facts := mkfacts {
+  f_keys_agree : bool;     (* the ibb listener table is deleted from under the key it is inserted with *)
+  f_depart_select : bool   (* muc: the departure notification is one alternative of a select *)
 }.
 
 Definition is_start (t : token) : bool := match t with TStart _ _ => true | _ => false end.
@@ -207,7 +228,7 @@ Fixpoint items_pages (e : env) (replies : list rd) : cset :=
       | Some l =>
           let '(k, en) := kids 0 l in
           (if has_elem k then [CErr] else []) ++ iter_end en (r_term r) ++
-          (if existsb is_rsm_set k then items_pages (mkenv (e_tracked e) (e_ready e) (e_type e) true) rest else [])
+          (if existsb is_rsm_set k then items_pages (mkenv (e_tracked e) (e_ready e) (e_type e) true (e_full e) (e_hist e)) rest else [])
       end
   end.
 
@@ -350,15 +371,61 @@ Definition receipts_handle (r : rd) : cset :=
   | _ :: rest => let '(k, e) := kids 0 rest in rcpt_loop k e (r_term r)
   end.
 
-(* ibb (owned by C15/C06): decode first; an accepted <open/> is answered and the
+(* ibb (owned by C15/C06).  The handler keeps a table of listeners keyed by an
+   address of the session.  Listen inserts under LocalAddr().String() unless an
+   entry is there; Close deletes and closes the accept channel.  If the key of
+   the deletion is not the key of the insertion (and they differ: the local
+   address is a full JID) the entry stays, with its channel closed. *)
+Inductive lstate := LNone | LOpen (accepting : bool) | LStale.
+
+Definition l_step (agree full : bool) (st : lstate) (o : aop) : lstate :=
+  match o, st with
+  | ALListen, LNone => LOpen false
+  | ALAcceptor, LOpen _ => LOpen true
+  | ALClose, LOpen _ => if agree || negb full then LNone else LStale
+  | _, _ => st
+  end.
+
+Definition l_state (agree full : bool) (h : list aop) : lstate := fold_left (l_step agree full) h LNone.
+
+(* decode first; an accepted <open/> addressed to the session is answered and the
    new connection handed to a matching Expect call if one is still waiting
-   (select with its done channel), otherwise to the listener over an
-   unbuffered channel: the handler is parked until the application calls Accept *)
-Definition ibb_iq (e : env) (start : token) : cset :=
+   (select with its done channel), otherwise to the listener over its
+   unbuffered accept channel: parked until the application calls Accept, a panic
+   if that channel has been closed *)
+Definition ibb_iq (f : facts) (e : env) (start : token) : cset :=
   match start with
-  | TStart n _ => if bytes_eqb (nlocal n) (str "open") && negb (e_ready e) then CBlocked :: returns else returns
+  | TStart n _ =>
+      if bytes_eqb (nlocal n) (str "open") && e_ok e then
+        match l_state (f_keys_agree f) (e_full e) (e_hist e) with
+        | LNone | LOpen true => returns
+        | LOpen false => CBlocked :: returns
+        | LStale => CPanic :: returns
+        end
+      else returns
   | _ => returns
   end.
+
+(* muc.Client.HandlePresence (owned by C18): nothing happens for an occupant
+   that is not managed; an unavailable presence of a managed one removes it and
+   puts a notification into the one-slot depart channel — as one alternative of
+   a select (never parks) or, if the inventory says otherwise, as a plain send
+   that parks when the slot still holds a departure nobody waited for. *)
+Definition m_step (st : bool * bool * bool) (o : aop) : bool * bool * bool :=
+  let '(managed, slot, pending) := st in
+  match o with
+  | AMJoin => (true, slot, pending)
+  | AMLeave => (managed, false, true)
+  | AMDepart => if managed then (false, negb pending, false) else st
+  | _ => st
+  end.
+
+Definition m_state (h : list aop) : bool * bool * bool := fold_left m_step h (false, false, false).
+
+Definition muc_presence (f : facts) (e : env) : cset :=
+  let '(managed, slot, _) := m_state (e_hist e) in
+  if e_ok e && managed && bytes_eqb (e_type e) (str "unavailable") && slot && negb (f_depart_select f)
+  then CBlocked :: returns else returns.
 
 (* ---- components ---- *)
 
@@ -424,6 +491,8 @@ Definition modelled_sites : list (site * stag) := [
   (mksite (str "ibb/ibb.go") (str "handlePayload") KMake (str "make([]byte, dataLen)"), SSafe);
   (mksite (str "ibb/ibb.go") (str "handlePayload") KSendSel (str "conn.readReady <- struct{}{}"), SEnv);
   (mksite (str "ibb/ibb.go") (str "handlePayload") KSlice (str "decoded[:n]"), SSafe);
+  (mksite (str "ibb/listen.go") (str "Listener.Close") KClose (str "close(l.c)"), SEnv);
+  (mksite (str "ibb/listen.go") (str "Listener.Expect") KIndex (str "l.expected[key]"), SSafe);
   (mksite (str "muc/muc.go") (str "Client.HandlePresence") KSendSel (str "c.j <- p.From"), SEnv);
   (mksite (str "muc/muc.go") (str "Client.HandlePresence") KSendSel (str "channel.depart <- struct{}{}"), SEnv);
   (mksite (str "muc/muc.go") (str "Client.JoinPresence") KIndex (str "c.managed[p.To.String()]"), SSafe);
@@ -508,15 +577,16 @@ Definition justified (s : site) : bool :=
 
 Definition first_rd (rs : list rd) : rd := match rs with r :: _ => r | [] => mkrd [] TmEOF end.
 
-Definition run_comp (c : comp) (e : env) (start : token) (rs : list rd) : cset :=
+Definition run_comp (f : facts) (c : comp) (e : env) (start : token) (rs : list rd) : cset :=
   let r := first_rd rs in
   match c with
   | HHistory => history_handle e r
   | HReceipts => receipts_handle r
   | HCarbons => carbons_handle r
   | HBlocklist => blocklist_handle start r
-  | HRoster | HXtime | HPing | HIbbMsg | HMucPres | HMucMsg => returns
-  | HIbbIQ => ibb_iq e start
+  | HRoster | HXtime | HPing | HIbbMsg | HMucMsg => returns
+  | HMucPres => muc_presence f e
+  | HIbbIQ => ibb_iq f e start
   | QUnmarshal vnil => unmarshal_iq vnil e r
   | QPing => ping_send e r
   | QUpload => upload_slot e r
@@ -539,24 +609,39 @@ Inductive outcome := Returned | Panicked | Wedged.
 
 Record inv := mkinv { i_comp : comp; i_env : env; i_start : token; i_rds : list rd }.
 
-Definition run_inv (i : inv) : cset :=
-  run_comp (i_comp i) (i_env i) (i_start i) (i_rds i).
+Definition run_inv (f : facts) (i : inv) : cset :=
+  run_comp f (i_comp i) (i_env i) (i_start i) (i_rds i).
 
-Fixpoint serve_may (script : list (list inv)) : list outcome :=
+Fixpoint serve_may (f : facts) (script : list (list inv)) : list outcome :=
   match script with
   | [] => [Returned]
   | el :: rest =>
-      (if existsb (fun i => mem CPanic (run_inv i)) el then [Panicked] else []) ++
-      (if existsb (fun i => mem CBlocked (run_inv i)) el then [Wedged] else []) ++
-      Returned :: serve_may rest
+      (if existsb (fun i => mem CPanic (run_inv f i)) el then [Panicked] else []) ++
+      (if existsb (fun i => mem CBlocked (run_inv f i)) el then [Wedged] else []) ++
+      Returned :: serve_may f rest
   end.
+
+(* ---- the facts of the tree the check runs on ---- *)
+
+(* all insertions into and deletions from the listener table use the same key expression *)
+Definition keys_agree (l : list (bool * bytes)) : bool :=
+  match l with
+  | [] => false
+  | (_, k) :: r => forallb (fun x => bytes_eqb (snd x) k) r && existsb fst l && existsb (fun x => negb (fst x)) l
+  end.
+
+Definition muc_depart_site : site :=
+  mksite (str "muc/muc.go") (str "Client.HandlePresence") KSendSel (str "channel.depart <- struct{}{}").
+
+Definition gen_facts : facts :=
+  mkfacts (keys_agree listener_table_keys) (existsb (site_eqb muc_depart_site) generated_sites).
 
 (* ---- correspondence ---- *)
 
 Record ccase := mkcase { cc_comp : comp; cc_env : env; cc_start : token; cc_rds : list rd; cc_obs : cls }.
 
 Definition case_ok (c : ccase) : bool :=
-  mem (cc_obs c) (run_comp (cc_comp c) (cc_env c) (cc_start c) (cc_rds c)).
+  mem (cc_obs c) (run_comp gen_facts (cc_comp c) (cc_env c) (cc_start c) (cc_rds c)).
 
 Fixpoint failing {A} (ok : A -> bool) (i : nat) (l : list A) : list nat :=
   match l with
